@@ -172,3 +172,15 @@ Example C16_hypotheses_satisfiable : wf_gtx unsigned_gtx /\ ~ ambiguous (plain_t
 Proof. exact unsigned_gtx_ok. Qed.
 Example C16_three_satoshis : to_sat (of_sat 3) = 3 /\ to_sat_trunc (of_sat 3) = 2.
 Proof. split; vm_compute; reflexivity. Qed.
+
+(** State inventory (tie, translator part): every Go struct the model of this property represents has, in the
+    source as it is NOW (gen/Structs.v, regenerated on every run), exactly the fields - names, types, order - the
+    model was written against (model/StateInventory.v).  New state in these objects (a memoised digest, a cached
+    document, a remembered operand) is state the theorems above do not speak about: this is the obligation that
+    stops checking then. *)
+From GoBT Require gen.Structs model.StateInventory.
+Theorem C16_state_inventory :
+  forall k, In k (StateInventory.group_of "C16") ->
+  exists f, StateInventory.lookup_gen gen.Structs.structs k = Some f /\ StateInventory.lookup_model k = Some f.
+Proof. apply StateInventory.inventory_ok_spec. vm_compute. reflexivity. Qed.
+Print Assumptions C16_state_inventory.
